@@ -691,6 +691,146 @@ func c07TokenOrigins(c *Ctx, ownTok map[string]bool) {
 	}
 }
 
+// ---- C07.QUOTE, glob clause: the in-pattern column is 1-based ----
+
+// rule_glob.go adds (column - 1) to the position of the scalar, so the column recorded in an InvalidGlobPattern must be the
+// 1-based column of the offending character. text/scanner's Pos() is the position behind the character consumed last:
+// its Column is the 1-based column of the look-ahead. A function that reports after the character was consumed records
+// Column - 1; the scanner's own Error callback runs while the character is still the look-ahead and records Column. 0
+// stands for "unknown" (rule_glob.go adds nothing then) and is only accepted beside a computed value.
+func c07GlobColumn(c *Ctx) {
+	p := c.P
+	// closures installed as Scanner.Error
+	callbacks := map[*ssa.Function]bool{}
+	for _, fn := range p.Funcs {
+		eachInstr(fn, func(_ *ssa.BasicBlock, _ int, in ssa.Instruction) {
+			st, ok := in.(*ssa.Store)
+			if !ok {
+				return
+			}
+			fa, ok := st.Addr.(*ssa.FieldAddr)
+			if !ok || !strings.HasSuffix(fieldAddrName(fa), "Scanner.Error") {
+				return
+			}
+			var v ssa.Value = st.Val
+			if ct, ok := v.(*ssa.ChangeType); ok {
+				v = ct.X
+			}
+			mark := func(f *ssa.Function) {
+				callbacks[f] = true
+				if f.Synthetic != "" {
+					// bound method wrapper (`scan.Error = v.method`): the method it forwards to
+					eachInstr(f, func(_ *ssa.BasicBlock, _ int, in ssa.Instruction) {
+						if call, ok := in.(ssa.CallInstruction); ok {
+							if g := staticCallee(call.Common()); g != nil {
+								callbacks[g] = true
+							}
+						}
+					})
+				}
+			}
+			switch x := v.(type) {
+			case *ssa.MakeClosure:
+				if f, ok := x.Fn.(*ssa.Function); ok {
+					mark(f)
+				}
+			case *ssa.Function:
+				mark(x)
+			}
+		})
+	}
+	occ := map[string]int{}
+	var fns []*ssa.Function
+	fns = append(fns, p.Funcs...)
+	for _, fn := range p.Funcs {
+		fns = append(fns, fn.AnonFuncs...)
+	}
+	seen := map[*ssa.Function]bool{}
+	for _, fn := range fns {
+		if seen[fn] {
+			continue
+		}
+		seen[fn] = true
+		eachInstr(fn, func(_ *ssa.BasicBlock, _ int, in ssa.Instruction) {
+			st, ok := in.(*ssa.Store)
+			if !ok {
+				return
+			}
+			fa, ok := st.Addr.(*ssa.FieldAddr)
+			if !ok || fieldAddrName(fa) != "InvalidGlobPattern.Column" {
+				return
+			}
+			var leaves []ssa.Value
+			var walk func(v ssa.Value, d int)
+			vis := map[ssa.Value]bool{}
+			walk = func(v ssa.Value, d int) {
+				if ph, ok := v.(*ssa.Phi); ok && d < 6 && !vis[v] {
+					vis[v] = true
+					for _, e := range ph.Edges {
+						walk(e, d+1)
+					}
+					return
+				}
+				leaves = append(leaves, v)
+			}
+			walk(st.Val, 0)
+			fromScanner := false
+			for _, l := range leaves {
+				for name := range linOf(l, 0) {
+					if strings.Contains(name, "Position.") {
+						fromScanner = true
+					}
+				}
+			}
+			if !fromScanner {
+				return // a column that is not read off the scanner (start or end of the whole pattern)
+			}
+			want, how := -1, "the character was consumed before the report: Position.Column - 1"
+			if callbacks[fn] {
+				want, how = 0, "the scanner's error callback runs with the character still the look-ahead: Position.Column"
+			}
+			k := FuncName(fn) + "|1-based column of the offending character"
+			occ[k]++
+			construct := fmt.Sprintf("%s#%d", k, occ[k])
+			computed, bad := 0, ""
+			for _, l := range leaves {
+				if k, ok := constInt(l); ok && k == 0 {
+					continue
+				}
+				lin := linOf(l, 0)
+				syms := 0
+				okForm := true
+				for name, coef := range lin {
+					if name == "1" || coef == 0 {
+						continue
+					}
+					syms++
+					if coef != 1 || !strings.Contains(name, "Position.Column") {
+						okForm = false
+					}
+				}
+				if !okForm || syms != 1 {
+					bad = "the recorded column is " + lin.String() + ", not derived from the scanner's Position.Column alone"
+					break
+				}
+				if linConst(lin) != want {
+					bad = fmt.Sprintf("the recorded column is %s; %s. Every glob diagnostic of this kind is reported %+d columns off", lin.String(), how, linConst(lin)-want)
+					break
+				}
+				computed++
+			}
+			switch {
+			case bad != "":
+				c.bad(construct, st.Pos(), bad)
+			case computed == 0:
+				c.bad(construct, st.Pos(), "the recorded column is always 0 (unknown): the diagnostic is reported at the start of the pattern")
+			default:
+				c.ok(construct, st.Pos(), how)
+			}
+		})
+	}
+}
+
 // ---- C08.RAWKEY ----
 
 // A case-insensitive name is kept twice: as the lower-case key under which it is looked up, and as the spelling the user
